@@ -127,6 +127,10 @@ def coqchk_all(timeout=4 * 3600):
         if st.get("hash") == key and st.get("ok"):
             return f"coqchk -o on this exact development (cached verdict, the run took {st.get('seconds')} s): Axioms: <none>; no type-in-type, unsafe fixpoints or assumed positivity"
     with Lock("coqchk"):
+        if os.path.exists(stamp):
+            st = json.load(open(stamp))
+            if st.get("hash") == key and st.get("ok"):
+                return f"coqchk -o on this exact development (cached verdict, the run took {st.get('seconds')} s): Axioms: <none>; no type-in-type, unsafe fixpoints or assumed positivity"
         coq_build([])
         mods = ["SFV.Properties." + os.path.basename(f)[:-2] for f in sorted(glob.glob(os.path.join(COQ, "theories", "Properties", "*.v")))]
         t0 = time.time()
